@@ -65,6 +65,14 @@ Theorem Gen_shared_objects_excused : vars_ok var_prots allow_list gen_global_var
 Proof. exact globals_vars_covered. Qed.
 Print Assumptions Gen_shared_objects_excused.
 
+(* Determinism of the schema index: no function iterates (`range`) over a package-level map of kyaml/openapi — parse()
+   ranges only over the maps of the incoming document. (An index rebuilt by ranging over the ACCUMULATED definitions
+   picks, among several stored definitions claiming one group/version/kind, a winner by Go's randomised iteration
+   order: such a loop shows up as an AMapRange row of Gen/Globals.v and breaks this obligation.) *)
+Theorem Gen_no_range_over_schema_maps : range_rows "kyaml/openapi." gen_accesses = [].
+Proof. exact globals_no_range_over_schema_maps. Qed.
+Print Assumptions Gen_no_range_over_schema_maps.
+
 (* History independence over the full state vector (OpenAPI state machine + the once-parsed default transformer
    configuration, of which builds only see deep copies of a compile-time constant). *)
 Theorem C01_full_state_history_independent :
